@@ -125,7 +125,7 @@ func main() {
 	if *budget == 0 {
 		*budget = 240
 		if tier == props.Thorough {
-			*budget = 1500
+			*budget = 3600
 		}
 	}
 	t0 := time.Now()
